@@ -4,6 +4,7 @@ CONSTANTS
   Ids = {1, 2}
   Limit = 3
   W = 2
+  OptLists <- OL_None
   Slack = 2
   Ns = {0, 1, 3}
   Jumps = {1}
@@ -13,5 +14,9 @@ CONSTANTS
   BugIncrBeforeReset = FALSE
   BugAllowOneMore = FALSE
   BugNoZeroOnReset = FALSE
-INVARIANTS TypeOK AdmittedPerWindow CheckConsumesNothing RemainingExact AllowedRule ResetIdentifiesWindow ResetIsNowPlusWindow
+  BugVerdictFromDefault = FALSE
+  BugRemainingFromDefault = FALSE
+  BugWindowFromDefault = FALSE
+  BugFirstOptionWins = FALSE
+INVARIANTS TypeOK AdmittedPerWindow AdmittedWithinCallLimit CheckConsumesNothing RemainingExact AllowedRule ResetIdentifiesWindow ResetIsNowPlusWindow
 CHECK_DEADLOCK FALSE
